@@ -91,6 +91,9 @@ def run_noescape(prog, rep, rule_name, restrict=None, floor=40):
 def run(prog, rep):
     nt = run_noescape(prog, rep, 'R20.1')
 
+    from rules import stream_window
+    stream_window.check(prog, rep, 'R20.5', floor=9)
+
     # ---------------------------------------------------------------- R20.2 thrown types
     rep.rule('R20.2', 'every throw operand type derives from std::exception; bare "throw;" only inside a handler', floor=60)
     for f in prog.funcs.values():
